@@ -24,8 +24,10 @@ Inductive val :=
 | VFun (name : string)                             (* a builtin or a module-level function *)
 | VSlice (lo hi : val)
 | VGen (items : list (val + err))                  (* a generator: its element results, an error ends it *)
-| VAllFail (result : val) (inputs : list (string * val))  (* FirstExceptionInAll; lives in recorded maps only *)
-| VPlaceholder.                                    (* the re-evaluator's PLACEHOLDER; Python never yields it *)
+| VAllFail (result : val) (inputs : list (string * val)). (* FirstExceptionInAll; lives in recorded maps only *)
+
+(** what a visit of the re-evaluator returns: a value or its PLACEHOLDER (no Python value is one) *)
+Definition rval := option val.
 
 Inductive res (A : Type) := Ok (a : A) | Err (e : err).
 Arguments Ok {A} a.
@@ -65,6 +67,29 @@ with parts := PNil | PLit (s : string) (p : parts) | PFmt (e : expr) (cv : conv)
 with dpairs := DNil | DCons (k v : expr) (d : dpairs)
 with gens := GNil | GCons (targets : list string) (tuple_target : bool) (iter : expr) (ifs : exprs) (g : gens).
 
+(** ** Node numbering: a node is identified by its position in the pre-order listing of the
+    condition's body ([size] = number of nodes of a sub-tree).  An f-string literal part is no node. *)
+Fixpoint size (e : expr) : nat :=
+  S match e with
+    | EConst _ | EName _ | EOmit => 0
+    | EAttr e1 _ | EStar e1 | EUn _ e1 | ENamed _ e1 => size e1
+    | ESub a b | ESlice a b | EBin _ a b => size a + size b
+    | ECall f xs ks => size f + size_l xs + size_k ks
+    | EBool _ es | EList es | ETuple es => size_l es
+    | ECmp l cs => size l + size_c cs
+    | EIf a b c => size a + size b + size c
+    | EFStr ps => size_p ps
+    | EDict ds => size_d ds
+    | EComp _ a b gs => size a + size b + size_g gs
+    end
+with size_l (es : exprs) : nat := match es with ENil => 0 | ECons e r => size e + size_l r end
+with size_k (ks : kwds) : nat := match ks with KNil => 0 | KCons _ e r => size e + size_k r end
+with size_c (cs : cmps) : nat := match cs with CNil => 0 | CCons _ e r => size e + size_c r end
+with size_p (ps : parts) : nat := match ps with PNil => 0 | PLit _ r => size_p r | PFmt e _ r => size e + size_p r end
+with size_d (ds : dpairs) : nat := match ds with DNil => 0 | DCons k v r => size k + size v + size_d r end
+with size_g (gs : gens) : nat :=
+  match gs with GNil => 0 | GCons _ _ it ifs r => size it + size_l ifs + size_g r end.
+
 (** ** Python's data model as an oracle *)
 Record prims := {
   p_unop : uop -> val -> res val;
@@ -84,15 +109,17 @@ Record prims := {
 }.
 
 (** ** Environments and logs *)
-Definition env := list (string * val).
+Definition genv (V : Type) := list (string * V).
+Definition env := genv val.
+Definition renv := genv rval.     (* the re-evaluator's [_name_to_value] *)
 
-Fixpoint lookup (m : env) (id : string) : option val :=
+Fixpoint lookup {V} (m : genv V) (id : string) : option V :=
   match m with
   | [] => None
   | (k, v) :: r => if String.eqb k id then Some v else lookup r id
   end.
 
-Fixpoint set_var (m : env) (id : string) (v : val) : env :=
+Fixpoint set_var {V} (m : genv V) (id : string) (v : V) : genv V :=
   match m with
   | [] => [(id, v)]
   | (k, w) :: r => if String.eqb k id then (k, v) :: r else (k, w) :: set_var r id v
@@ -106,17 +133,27 @@ Fixpoint flatten (tables : list env) : env :=
               t ++ filter (fun kv => match lookup t (fst kv) with Some _ => false | None => true end) rest
   end.
 
-Definition log := list (expr * val).
-Definition st := (env * log)%type.
-Definition M (A : Type) := st -> res (A * st).
-Definition ret {A} (a : A) : M A := fun s => Ok (a, s).
-Definition fail {A} (e : err) : M A := fun _ => Err e.
-Definition bindM {A B} (m : M A) (k : A -> M B) : M B :=
+Definition up (m : env) : renv := map (fun p => (fst p, Some (snd p))) m.
+Fixpoint down (m : renv) : option env :=
+  match m with
+  | [] => Some []
+  | (k, Some v) :: r => match down r with Some r' => Some ((k, v) :: r') | None => None end
+  | (_, None) :: _ => None
+  end.
+
+Definition log := list (nat * val).      (* node, value - in the order of evaluation *)
+Definition gst (V : Type) := (genv V * log)%type.
+Definition GM (V A : Type) := gst V -> res (A * gst V).
+Definition M := GM val.        (* Python's evaluation *)
+Definition R := GM rval.       (* the re-evaluator *)
+Definition ret {V A} (a : A) : GM V A := fun s => Ok (a, s).
+Definition fail {V A} (e : err) : GM V A := fun _ => Err e.
+Definition bindM {V A B} (m : GM V A) (k : A -> GM V B) : GM V B :=
   fun s => match m s with Ok (a, s') => k a s' | Err e => Err e end.
-Definition lift {A} (r : res A) : M A := fun s => match r with Ok a => Ok (a, s) | Err e => Err e end.
-Definition record (e : expr) (v : val) : M unit := fun s => Ok (tt, (fst s, snd s ++ [(e, v)])).
-Definition get_env : M env := fun s => Ok (fst s, s).
-Definition put_env (m : env) : M unit := fun s => Ok (tt, (m, snd s)).
+Definition lift {V A} (r : res A) : GM V A := fun s => match r with Ok a => Ok (a, s) | Err e => Err e end.
+Definition record {V} (i : nat) (v : val) : GM V unit := fun s => Ok (tt, (fst s, snd s ++ [(i, v)])).
+Definition get_env {V} : GM V (genv V) := fun s => Ok (fst s, s).
+Definition put_env {V} (m : genv V) : GM V unit := fun s => Ok (tt, (m, snd s)).
 Notation "x <- m ;; k" := (bindM m (fun x => k)) (at level 61, m at next level, right associativity).
 Notation "m ;;; k" := (bindM m (fun _ => k)) (at level 61, right associativity).
 
@@ -142,12 +179,11 @@ Fixpoint bind_names (names : list string) (vs : list val) (m : env) : res env :=
   | _, _ => Err ValueErr
   end.
 
-Definition is_ph (v : val) : bool := match v with VPlaceholder => true | _ => false end.
 
 Section Eval.
 Variable P : prims.
 
-Definition truthM (v : val) : M bool := lift (p_truth P v).
+Definition truthM {V} (v : val) : GM V bool := lift (p_truth P v).
 
 Definition bind_target (names : list string) (tuple_target : bool) (v : val) (m : env) : res env :=
   if tuple_target then
@@ -167,114 +203,118 @@ Fixpoint map_lazy {A B} (f : A -> res B) (l : list (A + err)) : list (B + err) :
 
 (** *** Python's evaluation.  Every evaluated node that denotes a value is logged with its value
     (the same node kinds the re-evaluator records), except inside comprehensions, which run in a
-    scope of their own: there nothing is logged and bindings are local. *)
-Fixpoint ev (e : expr) : M val :=
+    scope of their own: there nothing is logged and bindings are local.  [i] is the node's number. *)
+Fixpoint ev (i : nat) (e : expr) {struct e} : M val :=
   match e with
-  | EConst v => record e v ;;; ret v
+  | EConst v => record i v ;;; ret v
   | EName id =>
       m <- get_env ;;
       match lookup m id with
-      | Some v => record e v ;;; ret v
+      | Some v => record i v ;;; ret v
       | None => match p_builtin P id with
-                | Some v => record e v ;;; ret v
+                | Some v => record i v ;;; ret v
                 | None => fail NameErr
                 end
       end
   | EOmit => ret VNone
   | EStar _ => fail Unsupported
-  | EAttr e1 a => v <- ev e1 ;; r <- lift (p_getattr P v a) ;; record e r ;;; ret r
-  | ESub e1 i => v <- ev e1 ;; s <- ev i ;; r <- lift (p_getitem P v s) ;; record e r ;;; ret r
-  | ESlice lo hi => a <- ev lo ;; b <- ev hi ;; record e (VSlice a b) ;;; ret (VSlice a b)
+  | EAttr e1 a => v <- ev (S i) e1 ;; r <- lift (p_getattr P v a) ;; record i r ;;; ret r
+  | ESub e1 ix => v <- ev (S i) e1 ;; s <- ev (S i + size e1) ix ;; r <- lift (p_getitem P v s) ;; record i r ;;; ret r
+  | ESlice lo hi => a <- ev (S i) lo ;; b <- ev (S i + size lo) hi ;; record i (VSlice a b) ;;; ret (VSlice a b)
   | ECall f args kws =>
-      fv <- ev f ;; av <- ev_args args ;; kv <- ev_kwds kws ;;
-      r <- lift (p_call P fv av kv) ;; record e r ;;; ret r
-  | EUn op e1 => v <- ev e1 ;; r <- lift (p_unop P op v) ;; record e r ;;; ret r
-  | EBin op l r => a <- ev l ;; b <- ev r ;; x <- lift (p_binop P op a b) ;; record e x ;;; ret x
-  | EBool is_and es => r <- ev_bool is_and es ;; record e r ;;; ret r
-  | ECmp l cs => a <- ev l ;; r <- ev_cmps a cs ;; record e r ;;; ret r
-  | EIf t b o => tv <- ev t ;; c <- truthM tv ;; r <- (if c then ev b else ev o) ;; record e r ;;; ret r
+      fv <- ev (S i) f ;; av <- ev_args (S i + size f) args ;; kv <- ev_kwds (S i + size f + size_l args) kws ;;
+      r <- lift (p_call P fv av kv) ;; record i r ;;; ret r
+  | EUn op e1 => v <- ev (S i) e1 ;; r <- lift (p_unop P op v) ;; record i r ;;; ret r
+  | EBin op l r => a <- ev (S i) l ;; b <- ev (S i + size l) r ;; x <- lift (p_binop P op a b) ;; record i x ;;; ret x
+  | EBool is_and es => r <- ev_bool is_and (S i) es ;; record i r ;;; ret r
+  | ECmp l cs => a <- ev (S i) l ;; r <- ev_cmps a (S i + size l) cs ;; record i r ;;; ret r
+  | EIf t b o =>
+      tv <- ev (S i) t ;; c <- truthM tv ;;
+      r <- (if c then ev (S i + size t) b else ev (S i + size t + size b) o) ;; record i r ;;; ret r
   | ENamed tg e1 =>
-      v <- ev e1 ;; record e v ;;; m <- get_env ;; put_env (set_var m tg v) ;;; ret v
-  | EFStr ps => ss <- ev_parts ps ;; record e (VStr (String.concat "" ss)) ;;; ret (VStr (String.concat "" ss))
-  | EList es => vs <- ev_args es ;; record e (VList vs) ;;; ret (VList vs)
-  | ETuple es => vs <- ev_args es ;; record e (VTuple vs) ;;; ret (VTuple vs)
-  | EDict ds => kvs <- ev_dpairs ds ;; d <- lift (p_mkdict P kvs) ;; record e d ;;; ret d
+      v <- ev (S i) e1 ;; record i v ;;; m <- get_env ;; put_env (set_var m tg v) ;;; ret v
+  | EFStr ps => ss <- ev_parts (S i) ps ;; record i (VStr (String.concat "" ss)) ;;; ret (VStr (String.concat "" ss))
+  | EList es => vs <- ev_args (S i) es ;; record i (VList vs) ;;; ret (VList vs)
+  | ETuple es => vs <- ev_args (S i) es ;; record i (VTuple vs) ;;; ret (VTuple vs)
+  | EDict ds => kvs <- ev_dpairs (S i) ds ;; d <- lift (p_mkdict P kvs) ;; record i d ;;; ret d
   | EComp k elt elt2 gs =>
       m <- get_env ;;
       (* the first iterable is evaluated when the comprehension is created *)
       match gs with
       | GNil => fail Unsupported
       | GCons _ _ it0 _ _ =>
-          match run_inner (ev it0) m with
+          match run_inner (ev 0 it0) m with
           | Err x => fail x
           | Ok _ =>
               let envs := ev_gens gs m in
               match k with
-              | KGen => ret (VGen (map_lazy (fun m' => run_inner (ev elt) m') envs))
+              | KGen => ret (VGen (map_lazy (fun m' => run_inner (ev 0 elt) m') envs))
               | KList =>
-                  vs <- lift (force (map_lazy (fun m' => run_inner (ev elt) m') envs)) ;;
-                  record e (VList vs) ;;; ret (VList vs)
+                  vs <- lift (force (map_lazy (fun m' => run_inner (ev 0 elt) m') envs)) ;;
+                  record i (VList vs) ;;; ret (VList vs)
               | KDict =>
                   kvs <- lift (force (map_lazy (fun m' =>
-                            match run_inner (ev elt) m' with
-                            | Ok kx => match run_inner (ev elt2) m' with Ok vx => Ok (kx, vx) | Err x => Err x end
+                            match run_inner (ev 0 elt) m' with
+                            | Ok kx => match run_inner (ev 0 elt2) m' with Ok vx => Ok (kx, vx) | Err x => Err x end
                             | Err x => Err x
                             end) envs)) ;;
-                  d <- lift (p_mkdict P kvs) ;; record e d ;;; ret d
+                  d <- lift (p_mkdict P kvs) ;; record i d ;;; ret d
               end
           end
       end
   end
-with ev_args (es : exprs) : M (list val) :=
+with ev_args (i : nat) (es : exprs) {struct es} : M (list val) :=
   match es with
   | ENil => ret []
   | ECons (EStar e1) r =>
-      v <- ev e1 ;; items <- lift (p_iter P v) ;; xs <- lift (force items) ;; rest <- ev_args r ;; ret (xs ++ rest)
-  | ECons e1 r => v <- ev e1 ;; rest <- ev_args r ;; ret (v :: rest)
+      v <- ev (S i) e1 ;; items <- lift (p_iter P v) ;; xs <- lift (force items) ;;
+      rest <- ev_args (S i + size e1) r ;; ret (xs ++ rest)
+  | ECons e1 r => v <- ev i e1 ;; rest <- ev_args (i + size e1) r ;; ret (v :: rest)
   end
-with ev_kwds (ks : kwds) : M (list (string * val)) :=
+with ev_kwds (i : nat) (ks : kwds) {struct ks} : M (list (string * val)) :=
   match ks with
   | KNil => ret []
-  | KCons (Some n) e1 r => v <- ev e1 ;; rest <- ev_kwds r ;; ret ((n, v) :: rest)
-  | KCons None e1 r => v <- ev e1 ;; kv <- lift (p_kwunpack P v) ;; rest <- ev_kwds r ;; ret (kv ++ rest)
+  | KCons (Some n) e1 r => v <- ev i e1 ;; rest <- ev_kwds (i + size e1) r ;; ret ((n, v) :: rest)
+  | KCons None e1 r => v <- ev i e1 ;; kv <- lift (p_kwunpack P v) ;; rest <- ev_kwds (i + size e1) r ;; ret (kv ++ rest)
   end
-with ev_bool (is_and : bool) (es : exprs) : M val :=
+with ev_bool (is_and : bool) (i : nat) (es : exprs) {struct es} : M val :=
   match es with
   | ENil => ret VNone
   | ECons e1 r =>
       match r with
-      | ENil => ev e1
+      | ENil => ev i e1
       | ECons _ _ =>
-          v <- ev e1 ;; t <- truthM v ;;
-          if Bool.eqb t is_and then ev_bool is_and r else ret v
+          v <- ev i e1 ;; t <- truthM v ;;
+          if Bool.eqb t is_and then ev_bool is_and (i + size e1) r else ret v
       end
   end
-with ev_cmps (left : val) (cs : cmps) : M val :=
+with ev_cmps (left : val) (i : nat) (cs : cmps) {struct cs} : M val :=
   match cs with
   | CNil => ret VNone
   | CCons op e1 r =>
-      c <- ev e1 ;; x <- lift (p_cmp P op left c) ;;
+      c <- ev i e1 ;; x <- lift (p_cmp P op left c) ;;
       match r with
       | CNil => ret x
-      | CCons _ _ _ => t <- truthM x ;; if t then ev_cmps c r else ret x
+      | CCons _ _ _ => t <- truthM x ;; if t then ev_cmps c (i + size e1) r else ret x
       end
   end
-with ev_parts (ps : parts) : M (list string) :=
+with ev_parts (i : nat) (ps : parts) {struct ps} : M (list string) :=
   match ps with
   | PNil => ret []
-  | PLit s r => rest <- ev_parts r ;; ret (s :: rest)
-  | PFmt e1 cv r => v <- ev e1 ;; s <- lift (p_format P cv v) ;; rest <- ev_parts r ;; ret (s :: rest)
+  | PLit s r => rest <- ev_parts i r ;; ret (s :: rest)
+  | PFmt e1 cv r => v <- ev i e1 ;; s <- lift (p_format P cv v) ;; rest <- ev_parts (i + size e1) r ;; ret (s :: rest)
   end
-with ev_dpairs (ds : dpairs) : M (list (val * val)) :=
+with ev_dpairs (i : nat) (ds : dpairs) {struct ds} : M (list (val * val)) :=
   match ds with
   | DNil => ret []
-  | DCons k v r => kx <- ev k ;; vx <- ev v ;; rest <- ev_dpairs r ;; ret ((kx, vx) :: rest)
+  | DCons k v r =>
+      kx <- ev i k ;; vx <- ev (i + size k) v ;; rest <- ev_dpairs (i + size k + size v) r ;; ret ((kx, vx) :: rest)
   end
-with ev_gens (gs : gens) (m : env) : list (env + err) :=
+with ev_gens (gs : gens) (m : env) {struct gs} : list (env + err) :=
   match gs with
   | GNil => [inl m]
   | GCons names tup it ifs rest =>
-      match run_inner (ev it) m with
+      match run_inner (ev 0 it) m with
       | Err x => [inr x]
       | Ok itv =>
           match p_iter P itv with
@@ -298,15 +338,15 @@ with ev_gens (gs : gens) (m : env) : list (env + err) :=
           end
       end
   end
-with ev_ifs (es : exprs) : M bool :=
+with ev_ifs (es : exprs) {struct es} : M bool :=
   match es with
   | ENil => ret true
-  | ECons e1 r => v <- ev e1 ;; t <- truthM v ;; if t then ev_ifs r else ret false
+  | ECons e1 r => v <- ev 0 e1 ;; t <- truthM v ;; if t then ev_ifs r else ret false
   end.
 
 (** the value of a comprehension under a mapping, as [_execute_comprehension] obtains it by
     compiling the node into a function of the mapping's names: Python's own evaluation *)
-Definition comp_value (e : expr) (m : env) : res val := run_inner (ev e) m.
+Definition comp_value (e : expr) (m : env) : res val := run_inner (ev 0 e) m.
 
 (** names stored by the loop targets, first occurrence order *)
 Fixpoint stored_names (gs : gens) (acc : list string) : list string :=
@@ -323,7 +363,7 @@ Fixpoint first_failing (elt : expr) (names : list string) (envs : list (env + er
   | [] => Ok None
   | inr x :: _ => Err x
   | inl m :: r =>
-      match run_inner (ev elt) m with
+      match run_inner (ev 0 elt) m with
       | Err x => Err x
       | Ok v => match p_truth P v with
                 | Err x => Err x
@@ -336,187 +376,275 @@ Fixpoint first_failing (elt : expr) (names : list string) (envs : list (env + er
 (** *** The re-evaluator, [icontract._recompute.Visitor].  The state is its [_name_to_value]
     (placeholders included) and [recomputed_values].  An error is an exception escaping [visit]
     (the caller turns it into RuntimeError "Failed to recompute"). *)
-Definition any_ph (l : list val) : bool := existsb is_ph l.
+Fixpoint all_some {A} (l : list (option A)) : option (list A) :=
+  match l with
+  | [] => Some []
+  | Some a :: r => match all_some r with Some r' => Some (a :: r') | None => None end
+  | None :: _ => None
+  end.
 
-Definition mark_targets (gs : gens) : M unit :=
+Definition all_some_kw (l : list (string * rval)) : option (list (string * val)) :=
+  match all_some (map snd l) with
+  | Some vs => Some (combine (map fst l) vs)
+  | None => None
+  end.
+
+Definition mark_targets (gs : gens) : R unit :=
   m <- get_env ;;
-  put_env (fold_left (fun a n => set_var a n VPlaceholder) (stored_names gs []) m).
+  put_env (fold_left (fun a n => set_var a n (None : rval)) (stored_names gs []) m).
 
-Fixpoint rc (e : expr) {struct e} : M val :=
+Definition ph {A} : R (option A) := ret None.
+
+Fixpoint rc (i : nat) (e : expr) {struct e} : R rval :=
   match e with
-  | EConst v => record e v ;;; ret v
+  | EConst v => record i v ;;; ret (Some v)
   | EName id =>
       m <- get_env ;;
       match lookup m id with
-      | Some v => if is_ph v then ret VPlaceholder else record e v ;;; ret v
+      | Some (Some v) => record i v ;;; ret (Some v)
+      | Some None => ph
       | None => match p_builtin P id with
-                | Some v => record e v ;;; ret v
-                | None => ret VPlaceholder
+                | Some v => record i v ;;; ret (Some v)
+                | None => ph
                 end
       end
-  | EOmit => ret VNone
+  | EOmit => ret (Some VNone)
   | EStar _ => fail Unsupported
   | EAttr e1 a =>
-      v <- rc e1 ;;
-      if is_ph v then ret VPlaceholder else r <- lift (p_getattr P v a) ;; record e r ;;; ret r
-  | ESub e1 i =>
-      v <- rc e1 ;; s <- rc i ;;
-      if is_ph v || is_ph s then ret VPlaceholder else r <- lift (p_getitem P v s) ;; record e r ;;; ret r
+      x <- rc (S i) e1 ;;
+      match x with
+      | None => ph
+      | Some v => r <- lift (p_getattr P v a) ;; record i r ;;; ret (Some r)
+      end
+  | ESub e1 ix =>
+      x <- rc (S i) e1 ;; y <- rc (S i + size e1) ix ;;
+      match x, y with
+      | Some v, Some s => r <- lift (p_getitem P v s) ;; record i r ;;; ret (Some r)
+      | _, _ => ph
+      end
   | ESlice lo hi =>
-      a <- rc lo ;; b <- rc hi ;;
-      if is_ph a || is_ph b then ret VPlaceholder else record e (VSlice a b) ;;; ret (VSlice a b)
+      x <- rc (S i) lo ;; y <- rc (S i + size lo) hi ;;
+      match x, y with
+      | Some a, Some b => record i (VSlice a b) ;;; ret (Some (VSlice a b))
+      | _, _ => ph
+      end
   | ECall f args kws =>
-      fv <- rc f ;;
-      if is_ph fv then ret VPlaceholder else
-      if negb (p_callable P fv) then fail ValueErr else
-      let normal : M val :=
-        av <- rc_args args ;; kv <- rc_kwds kws ;;
-        if any_ph av || any_ph (map snd kv) then ret VPlaceholder else
-        r <- lift (p_call P fv av kv) ;; record e r ;;; ret r in
-      match args with
-      | ECons g ENil =>
-          match g with
-          | EComp KGen elt _ gs =>
-              if negb (p_is_all P fv) then normal else
-              (* tracing of all(<generator expression>) *)
-              a1 <- rc g ;;
-              if is_ph a1 then ret VPlaceholder else
-              a2 <- rc g ;;
-              r <- lift (p_call P fv [a2] []) ;;
-              t <- truthM r ;;
-              if t then record e r ;;; ret r else
-              m <- get_env ;;
-              ff <- lift (first_failing elt (stored_names gs []) (ev_gens gs m)) ;;
-              match ff with
-              | Some (x, inputs) => record e (VAllFail x inputs) ;;; ret r
-              | None => fail Unsupported   (* "Expected the unhappy path here" *)
+      x <- rc (S i) f ;;
+      match x with
+      | None => ph
+      | Some fv =>
+          if negb (p_callable P fv) then fail ValueErr else
+          let normal : R rval :=
+            av <- rc_args (S i + size f) args ;; kv <- rc_kwds (S i + size f + size_l args) kws ;;
+            match all_some av, all_some_kw kv with
+            | Some avs, Some kvs => r <- lift (p_call P fv avs kvs) ;; record i r ;;; ret (Some r)
+            | _, _ => ph
+            end in
+          match args with
+          | ECons g ENil =>
+              match g with
+              | EComp KGen elt _ gs =>
+                  if negb (p_is_all P fv) then normal else
+                  (* tracing of all(<generator expression>) *)
+                  a1 <- rc (S i + size f) g ;;
+                  match a1 with
+                  | None => ph
+                  | Some _ =>
+                      a2 <- rc (S i + size f) g ;;
+                      match a2 with
+                      | None => ph
+                      | Some gv =>
+                          r <- lift (p_call P fv [gv] []) ;;
+                          t <- truthM r ;;
+                          if t then record i r ;;; ret (Some r) else
+                          m <- get_env ;;
+                          match down m with
+                          | None => fail Unsupported
+                          | Some m' =>
+                              ff <- lift (first_failing elt (stored_names gs []) (ev_gens gs m')) ;;
+                              match ff with
+                              | Some (x', inputs) => record i (VAllFail x' inputs) ;;; ret (Some r)
+                              | None => fail Unsupported   (* "Expected the unhappy path here" *)
+                              end
+                          end
+                      end
+                  end
+              | _ => normal
               end
           | _ => normal
           end
-      | _ => normal
       end
   | EUn op e1 =>
-      v <- rc e1 ;;
-      if is_ph v then ret VPlaceholder else r <- lift (p_unop P op v) ;; record e r ;;; ret r
+      x <- rc (S i) e1 ;;
+      match x with
+      | None => ph
+      | Some v => r <- lift (p_unop P op v) ;; record i r ;;; ret (Some r)
+      end
   | EBin op l r =>
-      a <- rc l ;; b <- rc r ;;
-      if is_ph a || is_ph b then ret VPlaceholder else x <- lift (p_binop P op a b) ;; record e x ;;; ret x
+      x <- rc (S i) l ;; y <- rc (S i + size l) r ;;
+      match x, y with
+      | Some a, Some b => z <- lift (p_binop P op a b) ;; record i z ;;; ret (Some z)
+      | _, _ => ph
+      end
   | EBool is_and es =>
-      r <- rc_bool is_and es false ;;
-      if is_ph r then ret VPlaceholder else record e r ;;; ret r
+      x <- rc_bool is_and (S i) es false ;;
+      match x with
+      | None => ph
+      | Some r => record i r ;;; ret (Some r)
+      end
   | ECmp l cs =>
-      a <- rc l ;;
-      r <- rc_cmps a cs (is_ph a) VNone ;;
-      if is_ph r then ret VPlaceholder else record e r ;;; ret r
+      x <- rc (S i) l ;;
+      y <- match x with
+           | None => rc_cmps VNone (S i + size l) cs true VNone
+           | Some a => rc_cmps a (S i + size l) cs false VNone
+           end ;;
+      match y with
+      | None => ph
+      | Some r => record i r ;;; ret (Some r)
+      end
   | EIf t b o =>
-      tv <- rc t ;;
-      if is_ph tv then ret VPlaceholder else
-      c <- truthM tv ;;
-      r <- (if c then rc b else rc o) ;;
-      if is_ph r then ret VPlaceholder else record e r ;;; ret r
+      x <- rc (S i) t ;;
+      match x with
+      | None => ph
+      | Some tv =>
+          c <- truthM tv ;;
+          y <- (if c then rc (S i + size t) b else rc (S i + size t + size b) o) ;;
+          match y with
+          | None => ph
+          | Some r => record i r ;;; ret (Some r)
+          end
+      end
   | ENamed tg e1 =>
-      v <- rc e1 ;;
-      if is_ph v then ret VPlaceholder else
-      record e v ;;; m <- get_env ;; put_env (set_var m tg v) ;;; ret v
+      x <- rc (S i) e1 ;;
+      match x with
+      | None => ph
+      | Some v => record i v ;;; m <- get_env ;; put_env (set_var m tg (Some v)) ;;; ret (Some v)
+      end
   | EFStr ps =>
-      ss <- rc_parts ps ;;
+      ss <- rc_parts (S i) ps ;;
       match ss with
-      | None => ret VPlaceholder
-      | Some l => record e (VStr (String.concat "" l)) ;;; ret (VStr (String.concat "" l))
+      | None => ph
+      | Some l => record i (VStr (String.concat "" l)) ;;; ret (Some (VStr (String.concat "" l)))
       end
   | EList es =>
-      vs <- rc_args es ;;
-      if any_ph vs then ret VPlaceholder else record e (VList vs) ;;; ret (VList vs)
+      xs <- rc_args (S i) es ;;
+      match all_some xs with
+      | None => ph
+      | Some vs => record i (VList vs) ;;; ret (Some (VList vs))
+      end
   | ETuple es =>
-      vs <- rc_args es ;;
-      if any_ph vs then ret VPlaceholder else record e (VTuple vs) ;;; ret (VTuple vs)
+      xs <- rc_args (S i) es ;;
+      match all_some xs with
+      | None => ph
+      | Some vs => record i (VTuple vs) ;;; ret (Some (VTuple vs))
+      end
   | EDict ds =>
-      kvs <- rc_dpairs ds ;;
-      if any_ph (map fst kvs) || any_ph (map snd kvs) then ret VPlaceholder else
-      d <- lift (p_mkdict P kvs) ;; record e d ;;; ret d
+      kvs <- rc_dpairs (S i) ds ;;
+      match all_some (map fst kvs), all_some (map snd kvs) with
+      | Some ks, Some vs => d <- lift (p_mkdict P (combine ks vs)) ;; record i d ;;; ret (Some d)
+      | _, _ => ph
+      end
   | EComp k elt elt2 gs =>
       m <- get_env ;;
       mark_targets gs ;;;
-      rc elt ;;; rc elt2 ;;; rc_gens gs ;;;
+      rc (S i) elt ;;; rc (S i + size elt) elt2 ;;; rc_gens (S i + size elt + size elt2) gs ;;;
       put_env m ;;;
-      if any_ph (map snd m) then ret VPlaceholder else
-      r <- lift (comp_value e m) ;;
-      match k with
-      | KGen => ret r
-      | _ => record e r ;;; ret r
+      match down m with
+      | None => ph        (* a comprehension nested in a comprehension: not re-computed *)
+      | Some m' =>
+          r <- lift (comp_value e m') ;;
+          match k with
+          | KGen => ret (Some r)
+          | _ => record i r ;;; ret (Some r)
+          end
       end
   end
-with rc_args (es : exprs) {struct es} : M (list val) :=
+with rc_args (i : nat) (es : exprs) {struct es} : R (list rval) :=
   match es with
   | ENil => ret []
   | ECons (EStar e1) r =>
-      v <- rc e1 ;;
-      if is_ph v then rest <- rc_args r ;; ret (VPlaceholder :: rest) else
-      items <- lift (p_iter P v) ;; xs <- lift (force items) ;; rest <- rc_args r ;; ret (xs ++ rest)
-  | ECons e1 r => v <- rc e1 ;; rest <- rc_args r ;; ret (v :: rest)
+      x <- rc (S i) e1 ;;
+      match x with
+      | None => rest <- rc_args (S i + size e1) r ;; ret (None :: rest)
+      | Some v =>
+          items <- lift (p_iter P v) ;; xs <- lift (force items) ;;
+          rest <- rc_args (S i + size e1) r ;; ret (map Some xs ++ rest)
+      end
+  | ECons e1 r => x <- rc i e1 ;; rest <- rc_args (i + size e1) r ;; ret (x :: rest)
   end
-with rc_kwds (ks : kwds) {struct ks} : M (list (string * val)) :=
+with rc_kwds (i : nat) (ks : kwds) {struct ks} : R (list (string * rval)) :=
   match ks with
   | KNil => ret []
-  | KCons (Some n) e1 r => v <- rc e1 ;; rest <- rc_kwds r ;; ret ((n, v) :: rest)
+  | KCons (Some n) e1 r => x <- rc i e1 ;; rest <- rc_kwds (i + size e1) r ;; ret ((n, x) :: rest)
   | KCons None e1 r =>
-      v <- rc e1 ;;
-      if is_ph v then rest <- rc_kwds r ;; ret (("**", VPlaceholder) :: rest) else
-      kv <- lift (p_kwunpack P v) ;; rest <- rc_kwds r ;; ret (kv ++ rest)
+      x <- rc i e1 ;;
+      match x with
+      | None => rest <- rc_kwds (i + size e1) r ;; ret (("**", None) :: rest)
+      | Some v =>
+          kv <- lift (p_kwunpack P v) ;; rest <- rc_kwds (i + size e1) r ;;
+          ret (map (fun p => (fst p, Some (snd p))) kv ++ rest)
+      end
   end
-with rc_bool (is_and : bool) (es : exprs) (seen_ph : bool) {struct es} : M val :=
+with rc_bool (is_and : bool) (i : nat) (es : exprs) (seen_ph : bool) {struct es} : R rval :=
   match es with
-  | ENil => ret (if seen_ph then VPlaceholder else VNone)
+  | ENil => ret (if seen_ph then None else Some VNone)
   | ECons e1 r =>
-      v <- rc e1 ;;
-      let seen := seen_ph || is_ph v in
+      x <- rc i e1 ;;
       match r with
-      | ENil => ret (if seen then VPlaceholder else v)
+      | ENil => ret (if seen_ph then None else x)
       | ECons _ _ =>
-          if seen then rc_bool is_and r true else
-          t <- truthM v ;;
-          if Bool.eqb t is_and then rc_bool is_and r false else ret v
+          match (if seen_ph then None else x) with
+          | None => rc_bool is_and (i + size e1) r true
+          | Some v =>
+              t <- truthM v ;;
+              if Bool.eqb t is_and then rc_bool is_and (i + size e1) r false else ret (Some v)
+          end
       end
   end
-with rc_cmps (left : val) (cs : cmps) (seen_ph : bool) (result : val) {struct cs} : M val :=
+with rc_cmps (left : val) (i : nat) (cs : cmps) (seen_ph : bool) (result : val) {struct cs} : R rval :=
   match cs with
-  | CNil => ret (if seen_ph then VPlaceholder else result)
+  | CNil => ret (if seen_ph then None else Some result)
   | CCons op e1 r =>
-      c <- rc e1 ;;
-      let seen := seen_ph || is_ph c in
-      if seen then rc_cmps left r true result else
-      x <- lift (p_cmp P op left c) ;;
-      match r with
-      | CNil => ret x
-      | CCons _ _ _ => t <- truthM x ;; if t then rc_cmps c r false x else ret x
+      x <- rc i e1 ;;
+      match (if seen_ph then None else x) with
+      | None => rc_cmps left (i + size e1) r true result
+      | Some c =>
+          z <- lift (p_cmp P op left c) ;;
+          match r with
+          | CNil => ret (Some z)
+          | CCons _ _ _ => t <- truthM z ;; if t then rc_cmps c (i + size e1) r false z else ret (Some z)
+          end
       end
   end
-with rc_parts (ps : parts) {struct ps} : M (option (list string)) :=
+with rc_parts (i : nat) (ps : parts) {struct ps} : R (option (list string)) :=
   match ps with
   | PNil => ret (Some [])
-  | PLit s r => rest <- rc_parts r ;; ret (match rest with Some l => Some (s :: l) | None => None end)
+  | PLit s r => rest <- rc_parts i r ;; ret (match rest with Some l => Some (s :: l) | None => None end)
   | PFmt e1 cv r =>
-      v <- rc e1 ;;
-      if is_ph v then rc_parts r ;;; ret None else
-      s <- lift (p_format P cv v) ;;
-      rest <- rc_parts r ;; ret (match rest with Some l => Some (s :: l) | None => None end)
+      x <- rc i e1 ;;
+      match x with
+      | None => rc_parts (i + size e1) r ;;; ret None
+      | Some v =>
+          s <- lift (p_format P cv v) ;;
+          rest <- rc_parts (i + size e1) r ;; ret (match rest with Some l => Some (s :: l) | None => None end)
+      end
   end
-with rc_dpairs (ds : dpairs) {struct ds} : M (list (val * val)) :=
+with rc_dpairs (i : nat) (ds : dpairs) {struct ds} : R (list (rval * rval)) :=
   match ds with
   | DNil => ret []
   | DCons k v r =>
       (* [d[visit(key)] = visit(value)]: Python evaluates the right-hand side first *)
-      vx <- rc v ;; kx <- rc k ;; rest <- rc_dpairs r ;; ret ((kx, vx) :: rest)
+      vx <- rc (i + size k) v ;; kx <- rc i k ;; rest <- rc_dpairs (i + size k + size v) r ;; ret ((kx, vx) :: rest)
   end
-with rc_gens (gs : gens) {struct gs} : M unit :=
+with rc_gens (i : nat) (gs : gens) {struct gs} : R unit :=
   match gs with
   | GNil => ret tt
-  | GCons _ _ it ifs rest => rc it ;;; rc_ifs ifs ;;; rc_gens rest
+  | GCons _ _ it ifs rest => rc i it ;;; rc_ifs (i + size it) ifs ;;; rc_gens (i + size it + size_l ifs) rest
   end
-with rc_ifs (es : exprs) {struct es} : M unit :=
+with rc_ifs (i : nat) (es : exprs) {struct es} : R unit :=
   match es with
   | ENil => ret tt
-  | ECons e1 r => rc e1 ;;; rc_ifs r
+  | ECons e1 r => rc i e1 ;;; rc_ifs (i + size e1) r
   end.
 
 End Eval.
